@@ -27,7 +27,7 @@ fn check(ctx: &Ctx, ws: &mut Workers, c: &ProgCase, counting: bool, strict: bool
     let r = c01::check_case_with(ctx, ws, c, counting, &cfgs, strict, "c08", &[Entry::Repl, Entry::Module], false, &nontrivial);
     if counting {
         for f in &c.features {
-            if ["continuation-reentry", "escape-through-wind", "reentry-into-wind", "error-through-wind", "reentry-into-map", "nested-handlers", "escape-from-depth", "capture-in-argument-position", "reentry-into-nested-winds", "reentry-from-sibling-wind", "reentry-into-closure-instance-recursion", "reentry-after-caught-error"].contains(&f.as_str()) {
+            if ["continuation-reentry", "escape-through-wind", "reentry-into-wind", "error-through-wind", "reentry-into-map", "nested-handlers", "escape-from-depth", "capture-in-argument-position", "reentry-into-nested-winds", "reentry-from-sibling-wind", "reentry-into-closure-instance-recursion", "reentry-after-caught-error", "after-thunk-escapes"].contains(&f.as_str()) {
                 ctx.stats.class(&format!("template:{}", f));
             }
         }
